@@ -488,7 +488,12 @@ func kvGen(ctx *Ctx, n int, redisOK bool, keys []string) []string {
 	}
 	now := 0
 	nver := 0
+	farExp := r.Chance(1, 5)
 	exp := func() string {
+		if farExp && r.Chance(1, 3) {
+			// "never expires": centuries ahead (beyond what a 64-bit nanosecond count since 1970 can hold)
+			return []string{"8830000000000", "8000000000000"}[r.Intn(2)]
+		}
 		switch r.Intn(4) {
 		case 0, 1:
 			return "-"
